@@ -313,7 +313,7 @@ def cut_frames(r: random.Random, rows: list, *, empty_prob=0.15, repeat_options_
     for c in [*cuts, len(rows)]:
         if allow_leading_empty or frames:
             while r.random() < empty_prob:
-                frames.append(jelly.RdfStreamFrame())
+                frames.append(_empty_frame(r, may_carry_metadata=bool(frames)))
         f = jelly.RdfStreamFrame(rows=rows[prev:c])
         if r.random() < metadata_prob:
             f.metadata["k"] = bytes([r.randint(0, 255) for _ in range(r.randint(0, 4))])
@@ -322,8 +322,17 @@ def cut_frames(r: random.Random, rows: list, *, empty_prob=0.15, repeat_options_
         frames.append(f)
         prev = c
     while r.random() < empty_prob:
-        frames.append(jelly.RdfStreamFrame())
+        frames.append(_empty_frame(r, may_carry_metadata=True))
     return frames
+
+
+def _empty_frame(r: random.Random, may_carry_metadata: bool):
+    """A frame without rows; when it is not the first frame of the stream it sometimes carries metadata (a checkpoint or
+    end-of-stream marker). A metadata-only FIRST frame is left to the directed C07 case (known finding at 10 bytes)."""
+    f = jelly.RdfStreamFrame()
+    if may_carry_metadata and r.random() < 0.4:
+        f.metadata[r.choice(["ck", "eos", "k"])] = bytes([r.randint(0, 255) for _ in range(r.randint(0, 3))])
+    return f
 
 
 def frames_to_bytes(frames, delimited: bool) -> bytes:
